@@ -338,6 +338,29 @@ static void final_checks(Run &r) {
 	}
 }
 
+// ---------------------------------------------------------------------------------------------- aimed flush offsets
+// LZMA2 chunk ends (cumulative uncompressed offsets) of a raw LZMA2 stream; limit[i] = chunk i is an LZMA chunk that was closed
+// because of the chunk size limits (64 KiB compressed / 2 MiB uncompressed) and is followed by more data
+struct ChunkEnds { std::vector<uint64_t> end; std::vector<bool> limit; };
+static ChunkEnds lzma2_chunk_ends(const uint8_t *p, size_t n) {
+	ChunkEnds C; size_t i = 0; uint64_t unc = 0;
+	while (i < n && p[i] != 0) {
+		const uint8_t ct = p[i]; uint32_t u, cs = 0; bool lz = ct >= 0x80;
+		if (lz) { if (i + 5 > n) break; u = (((uint32_t)ct & 0x1F) << 16 | (uint32_t)p[i + 1] << 8 | p[i + 2]) + 1; cs = ((uint32_t)p[i + 3] << 8 | p[i + 4]) + 1; i += 5 + (ct >= 0xC0 ? 1 : 0) + cs; }
+		else { if (i + 3 > n) break; u = ((uint32_t)p[i + 1] << 8 | p[i + 2]) + 1; i += 3 + u; }
+		unc += u; C.end.push_back(unc); C.limit.push_back(lz && (cs >= 61000 || u > (1u << 21) - 400) && i < n && p[i] != 0);
+	}
+	return C;
+}
+static ChunkEnds chunk_ends_of_output(int ek, const std::vector<uint8_t> &out) {
+	if (ek == EK_RAW) return lzma2_chunk_ends(out.data(), out.size());
+	ref::XzOpts xo; xo.out_limit = 1u << 22; ref::XzResult X = ref::xz_decode(out.data(), out.size(), xo);
+	if (X.streams.empty() || X.streams[0].blocks.empty()) return ChunkEnds();
+	const ref::BlockLayout &b = X.streams[0].blocks[0];
+	if (b.data_off + b.data_size > out.size()) return ChunkEnds();
+	return lzma2_chunk_ends(out.data() + b.data_off, b.data_size);
+}
+
 // ---------------------------------------------------------------------------------------------- case
 static uint32_t draw_feed(Case &c, uint32_t nice) {
 	uint8_t k = c.byte();
@@ -355,9 +378,14 @@ extern "C" int LLVMFuzzerTestOneInput(const uint8_t *data, size_t size) {
 	Case c(data, size);
 	Run r;
 	r.ek = c.u(EK_N);
+	// "aimed" cases: a probe encoding of the same input finds where an LZMA2 chunk is closed by the chunk size limit; the history
+	// then flushes or finishes within -3..+8 bytes of that offset (the encoder has read-ahead pending there)
+	const bool aimed = c.rare(10);
+	if (aimed) r.ek = c.flag() ? EK_RAW : EK_STREAM;
 	// chain kinds: initial + two alternatives with other Filter IDs
 	{ int perm[3] = {CK_LZMA2, CK_DELTA, CK_BCJ}; unsigned p = c.u(6); int a = p % 3, b = (a + 1 + (p / 3)) % 3, d = 3 - a - b; r.cks[0] = perm[a]; r.cks[1] = perm[b]; r.cks[2] = perm[d]; }
 	if (r.ek == EK_RAW && c.chance(50)) r.cks[0] = CK_LZMA1;
+	if (aimed) { r.cks[0] = CK_LZMA2; r.cks[1] = CK_DELTA; r.cks[2] = CK_BCJ; }   // (never LZMA1 <-> LZMA2 as an update: filter.h makes unchanged Filter IDs the caller's obligation and the last filter's ID is not checked)
 	for (int i = 0; i < 3; ++i) { r.chains[i].reset(new ec::Config()); build_chain(c, r.cfg(i), r.cks[i]); }
 	ec::Config &g = r.cfg(0);
 	g.entry = r.ek == EK_STREAM ? ec::E_STREAM : r.ek == EK_MT ? ec::E_STREAM_MT : r.ek == EK_RAW ? ec::E_RAW : ec::E_BLOCK;
@@ -378,7 +406,32 @@ extern "C" int LLVMFuzzerTestOneInput(const uint8_t *data, size_t size) {
 	}
 	{ Op fin; fin.kind = OP_FINISH; if (c.chance(90)) { fin.n = draw_feed(c, g.lz.nice_len); if (total + fin.n > cap) fin.n = 0; total += fin.n; } r.ops.push_back(fin); }
 	Recipe rec = draw_recipe(c, 1, g.lz.dict_size); rec.len = (uint32_t)total; if (rec.kind == RK_LITERAL) { rec.kind = RK_COPY_EDITS; rec.lit.clear(); }
-	r.P = expand(rec);
+	uint64_t aim_T = 0; std::vector<uint8_t> P_aimed; bool have_P_aimed = false;
+	if (aimed) {
+		// input that compresses, but to more than 64 KiB: symbols from a 64-letter alphabet with some repetition
+		rec.kind = RK_MIXED; rec.len = (130u << 10) + c.u16(); rec.alpha = c.pick<uint32_t>({16, 32, 64, 64}); rec.lit.clear();
+		std::vector<uint8_t> P0(rec.len);
+		{ Rng q(rec.seed * 0x9E3779B97F4A7C15ull + 12); size_t i = 0; while (i < P0.size()) {
+			if (i > 64 && q.below(4) == 0) { size_t d = 1 + q.below((uint32_t)std::min<size_t>(i, 60000)), l = 4 + q.below(40); for (size_t k = 0; k < l && i < P0.size(); ++k, ++i) P0[i] = P0[i - d]; }
+			else { size_t l = 8 + q.below(56); for (size_t k = 0; k < l && i < P0.size(); ++k, ++i) P0[i] = (uint8_t)(48 + q.below(rec.alpha)); } } }
+		ec::govern_cost(g, P0.size());
+		ec::Encoded E0 = ec::encode_all(g, P0, drv::Schedule(), AL());
+		ChunkEnds C0; if (E0.ret == LZMA_STREAM_END) C0 = chunk_ends_of_output(r.ek, E0.bytes);
+		std::vector<uint64_t> cand; for (size_t i = 0; i < C0.end.size(); ++i) if (C0.limit[i]) cand.push_back(C0.end[i]);
+		if (cand.empty()) { count("aimed_no_chunk_closed_by_size_limit"); if (getenv("VERIF_C12_DEBUG")) fprintf(stderr, "aimed: kind %d alpha %u len %u ret %d out %zu chunks %zu\n", (int)rec.kind, rec.alpha, rec.len, (int)E0.ret, E0.bytes.size(), C0.end.size()); }
+		else {
+			const uint64_t B = cand[c.u((uint32_t)cand.size())]; const int delta = (int)c.u(12) - 3;
+			aim_T = std::min<uint64_t>(std::max<int64_t>(1, (int64_t)B + delta), P0.size());
+			r.ops.clear(); const bool fin_there = c.flag();
+			Op f; f.kind = OP_FEED; f.n = (uint32_t)(c.flag() ? 0 : aim_T - std::min<uint64_t>(aim_T, 1 + c.u(300))); r.ops.push_back(f);
+			if (fin_there) { Op e; e.kind = OP_FINISH; e.n = (uint32_t)(aim_T - f.n); r.ops.push_back(e); }
+			else { Op y; y.kind = OP_SYNC; y.n = (uint32_t)(aim_T - f.n); r.ops.push_back(y); Op e; e.kind = OP_FINISH; e.n = (uint32_t)(P0.size() - aim_T); r.ops.push_back(e); }
+			P_aimed = P0; if (fin_there) P_aimed.resize((size_t)aim_T); have_P_aimed = true; rec.len = (uint32_t)P_aimed.size();
+			total = rec.len; count(fin_there ? "aimed_finish_near_chunk_limit" : "aimed_sync_flush_near_chunk_limit");
+		}
+		if (cand.empty()) { rec.len = (uint32_t)total; }
+	}
+	r.P = have_P_aimed ? P_aimed : expand(rec);
 	if (r.ek == EK_MT && g.block_size && total / g.block_size > 64) g.block_size = total / 64 + 1;   // cost: at most ~64 Blocks
 	// description + hash
 	std::string d = std::string("{\"encoder\":\"") + ek_names[r.ek] + "\",\"chains\":[\"" + ck_names[r.cks[0]] + "\",\"" + ck_names[r.cks[1]] + "\",\"" + ck_names[r.cks[2]] + "\"],\"cfg\":" + g.describe() + ",\"input\":" + rec.describe() + ",\"slicing\":" + std::to_string(r.style) + ",\"ops\":[";
@@ -460,6 +513,11 @@ extern "C" int LLVMFuzzerTestOneInput(const uint8_t *data, size_t size) {
 	}
 	lzma_end(&r.s); lzma_verif_mf_offset_bias = 0;
 	if (finished) { final_checks(r); count("finished_and_verified"); }
+	if (finished && aim_T) {   // did the aim work?  a chunk closed by the size limit ends 1..8 bytes before the flush/finish offset
+		ChunkEnds C1 = chunk_ends_of_output(r.ek, r.out); bool hit = false, exact = false;
+		for (size_t i = 0; i < C1.end.size(); ++i) if (C1.limit[i] || (i + 1 < C1.end.size() && C1.end[i] < aim_T)) { if (C1.end[i] < aim_T && aim_T - C1.end[i] <= 8 && C1.limit[i]) hit = true; if (C1.end[i] == aim_T) exact = true; }
+		if (hit) count("flush_or_finish_1_to_8_bytes_after_chunk_closed_by_size_limit"); (void)exact;
+	}
 	else count("history_ended_early");
 	if (r.flushes_done >= 1 && r.fed_before_flush && r.fed_after_flush && finished) nontrivial(r.hash);
 	return 0;
